@@ -12,7 +12,7 @@ TECHNIQUE = ('runtime monitoring with a pure-Python savepoint model (stack of de
              'the real objects after every savepoint, rollback, commit and abort; a second connection must see only committed data; '
              'temporary savepoint stores are tracked and must be closed after the transaction')
 RULE = ('random programs mixing modify / link fresh, known and disowned objects / explicit add / unlink / savepoint / rollback to a '
-        'random valid savepoint (repeatedly to the same one, to older ones, after newer ones were taken) / commit / abort, on '
+        'random valid savepoint (repeatedly to the same one, to older ones, after newer ones were taken) / commit / abort / failed commit (conflict, failing foreign participant), on '
         'FileStorage and MappingStorage. After every savepoint, rollback, commit and abort: every object\'s ownership (_p_oid/_p_jar), '
         'visible state and (for disowned objects) retained Python state == model; savepoints taken after the rollback target must '
         'refuse; records of the final commit == model; a second connection reads the committed state only; every TmpStore created '
@@ -24,7 +24,7 @@ ASSUMPTIONS = ['single connection per program plus one observer connection']
 REQUIRED_COUNTERS = ('shadow_comparisons', 'savepoints', 'rollbacks', 'rollbacks_past_later_savepoints', 'repeated_rollbacks_to_same_savepoint',
                      'tmpstores_checked_closed', 'second_connection_comparisons')
 
-OPS = ['modify'] * 5 + ['link'] * 6 + ['unlink'] * 2 + ['add'] * 2 + ['savepoint'] * 5 + ['rollback'] * 5 + ['commit'] * 2 + ['abort']
+OPS = ['modify'] * 5 + ['link'] * 6 + ['unlink'] * 2 + ['add'] * 2 + ['savepoint'] * 5 + ['rollback'] * 5 + ['commit'] * 2 + ['abort', 'conflict', 'foreign']
 
 
 def shards(tier, seed):
@@ -85,8 +85,11 @@ def run_case(sh, s, d, case):
                             nt = True
                     last_rb = tgt
                     created_since_rb = False
-            elif k in ('commit', 'abort'):
-                (sw.op_commit if k == 'commit' else sw.op_abort)()
+            elif k in ('commit', 'abort', 'conflict', 'foreign'):
+                n_before = len(trace)
+                {'commit': sw.op_commit, 'abort': sw.op_abort, 'conflict': sw.op_conflict, 'foreign': sw.op_foreign_failure}[k]()
+                if len(trace) == n_before or not trace[-1].startswith(('commit', 'abort', 'conflict', 'foreign')):
+                    continue          # the operation did not apply (nothing to conflict on): the transaction goes on
                 last_rb = None
                 for t in tmpstores:
                     sh.count('tmpstores_checked_closed')
